@@ -427,7 +427,12 @@ func cmdCheck(args []string) int {
 	}
 	os.MkdirAll(filepath.Join(verifDir, "evidence"), 0o755)
 	b, _ := json.MarshalIndent(ev, "", " ")
-	os.WriteFile(filepath.Join(verifDir, "evidence", id+".json"), b, 0o644)
+	if *only != "" {
+		// a partial (debugging) run does not describe the check: keep the evidence of the last full run
+		fmt.Fprintln(os.Stderr, "partial run (--only): evidence file not rewritten")
+	} else {
+		os.WriteFile(filepath.Join(verifDir, "evidence", id+".json"), b, 0o644)
+	}
 	fmt.Fprintf(os.Stderr, "%s %s: %d jobs, paths %v, %d solver queries (%.1fs), %d violations (%d unlisted), %d replays, wall %.1fs -> exit %d\n",
 		id, *tier, len(jobs), totalPaths, ex.solverStats.q, ex.solverStats.t.Seconds(), len(allViol), nviol, replayed, wall, exit)
 	return exit
